@@ -1,5 +1,7 @@
 (* C08 — segmentation and aggregation follow the protocol rules. *)
-Require Import CMP.Bytes CMP.Packet CMP.Tecmp CMP.Decoder CMP.Encoder CMP.EncoderProofs CMP.Cir CMP.CodeRefine CMPGen.GenCode.
+Require Import CMP.Bytes CMP.Packet CMP.Tecmp CMP.Decoder CMP.Encoder CMP.EncoderProofs CMP.Cir CMP.CodeBridge CMP.CodeSegFlag CMPGen.GenCode.
+From Coq Require Import String List.
+Import ListNotations.
 Local Open Scope Z_scope.
 
 (* The control flow of the encoder (putPacket / checkIfSegmented / addNewCMPFrame, bytesLeft arithmetic) produces exactly the
@@ -56,12 +58,15 @@ Definition ex_pkt (n : nat) : packet :=
    returns - for every argument tuple the encoder can pass (bytesToAdd < 65536, positions below 2^64) - the flag the model's segment
    loop (Encoder.cloop) computes: unsegmented if the packet fits, else first for segment 0, last for the segment that ends at the
    payload's end, intermediary otherwise. *)
-Theorem C08_translated_flag_rule_is_the_models : forall (seg : bool) k n L pos,
+Theorem C08_translated_flag_rule_is_the_models : forall (seg : bool) k n L pos c,
   0 <= n < 65536 -> 0 <= L < 2 ^ 64 -> 0 <= pos -> pos + n < 2 ^ 64 ->
-  ceval gen_reads [] (env_of_list [b2z seg; k; n; L; pos]) code_Encoder_buildSegmentationFlag
+  code_Encoder_buildSegmentationFlag = Some c ->
+  ceval gen_reads [] (env_of_list [b2z seg; k; n; L; pos]) c
   = Ok (if seg then (if k =? 0 then 4 else if pos + n =? L then 12 else 8) else 0).
 Proof. exact code_seg_flag. Qed.
 Print Assumptions C08_translated_flag_rule_is_the_models.
+Theorem C08_flag_rule_translated : lost_among ["ASAM::CMP::Encoder::buildSegmentationFlag"]%string = nil.
+Proof. vm_compute. reflexivity. Qed.
 
 Example C08_example :
   map (fun f => map (fun i => (it_flag i, it_len i)) (fr_items f)) (enc_struct 56 [ex_pkt 8; ex_pkt 100; ex_pkt 8])
